@@ -146,6 +146,8 @@ def cargo_build(crate, bins=None, features=None, timeout=2400, jobs=None, env=No
     /repo tree, release profile.  Returns dict bin -> path (bins defaults to [crate])."""
     crate_dir = os.path.join(HARNESS, crate)
     bins = bins or [crate]
+    if os.path.realpath(REPO) != "/repo":
+        crate_dir = shadow_crate(crate)
     lock = os.path.join(crate_dir, "Cargo.lock")
     if not os.path.exists(lock) and os.path.exists(os.path.join(REPO, "Cargo.lock")):
         shutil.copy(os.path.join(REPO, "Cargo.lock"), lock)
@@ -167,6 +169,29 @@ def cargo_build(crate, bins=None, features=None, timeout=2400, jobs=None, env=No
         raise ToolError("cargo build failed in %s:\n%s" % (crate_dir, "\n".join(p.stdout.splitlines()[-80:])))
     log("cargo build %s: %.1fs" % (crate, time.time() - t0))
     return {b: os.path.join(crate_dir, "target", "release", b) for b in bins}
+
+
+def shadow_crate(crate):
+    """VERIF_REPO=<scratch worktree> : build a shadow copy of the harness crate (under .work/shadow) whose path
+    dependency and #[path] includes point at that tree instead of /repo.  Used to test the checks against
+    mutated copies of bump-scope without touching /repo itself."""
+    tag = hashlib.sha1(os.path.realpath(REPO).encode()).hexdigest()[:8]
+    dst = os.path.join(WORK, "shadow", tag, crate)
+    os.makedirs(dst, exist_ok=True)
+    src = os.path.join(HARNESS, crate)
+    subprocess.run(["rsync", "-a", "--delete", "--exclude", "target", src + "/", dst + "/"], check=True)
+    for root, dirs, files in os.walk(dst):
+        if "target" in dirs:
+            dirs.remove("target")
+        for fn in files:
+            if fn.endswith((".toml", ".rs")):
+                fp = os.path.join(root, fn)
+                txt = open(fp).read()
+                new = txt.replace('"/repo"', '"%s"' % REPO).replace('"/repo/', '"%s/' % REPO)
+                if new != txt:
+                    # keep mtime stable when the content is unchanged so cargo's incremental build stays warm
+                    open(fp, "w").write(new)
+    return dst
 
 
 def run(cmd, timeout=600, cwd=None, env=None, input_=None, check=True):
